@@ -93,22 +93,25 @@ PROPS = {
     },
     "C09": {
         "level": "other",
-        "explanation": "Quick tier: the ghost-table units of the payload phase check that a refused PDU changes nothing (update_pfx). "
-                       "The callback log itself (one 'added' per successful add, one 'removed' per successful remove and per record "
-                       "purged by source, none on duplicate / not-found / error) is checked against the real table only in the "
-                       "thorough-tier history unit pfx_hist (bounded). pfx_table_notify_diff and pfx_table_free are not under contract.",
+        "explanation": "pfx_table_add / pfx_table_remove (complete for the glue code, callees by contract): exactly one 'added' / 'removed' "
+                       "callback with the record after a successful operation, none on duplicate / not-found / failure, always after "
+                       "the lock is released. pfx_table_free on every trie shape of 2 levels (bounded): one removal per stored record "
+                       "with the record's OWN prefix and length, none missing or repeated. Refused PDUs change nothing (update_pfx). "
+                       "Not covered in the registered tiers: removal by source (unit src_remove and the history unit pfx_hist exceed the "
+                       "sandbox: lab tier), pfx_table_notify_diff, rollback and reload driven by cache responses (store_E covers only "
+                       "the empty response, thorough).",
         "trusted": [],
-        "assumptions": ["most of this property is covered only in the thorough tier"],
+        "assumptions": ["callee contracts of the composition units in client reading (see ASSUMED / PROVED list)"],
     },
     "C10": {
         "level": "other",
         "explanation": "key_entry_cmp = 0 exactly when AS, all 20 SKI bytes, all 91 key bytes and the source are equal; the record/entry "
-                       "conversions copy every byte (complete). The real ht-spkitable.c on the real tommyds hash table and list against "
-                       "the mathematical set over histories of 2 adds + 1 operation (add / remove / remove-by-source) + both lookups, with "
-                       "colliding AS numbers, shared SKIs, two sources, update callbacks and the lock protocol (bounded; table far below "
-                       "the first resize step, so tommy's grow/shrink steps are not covered; copy, swap and notify_diff not under contract).",
-        "trusted": ["third-party tommyds below the resize threshold is executed, not assumed; resize steps are not covered"],
-        "assumptions": [],
+                       "conversions copy every byte (complete, all inputs). The table operations on the real tommyds hash table "
+                       "(unit spki_hist: histories against the mathematical set, lookups, callbacks, lock protocol) exceed the "
+                       "sandbox's memory/time in CBMC and are NOT part of the registered tiers (lab tier, run by hand); add / remove / "
+                       "lookup / remove-by-source / copy / swap are therefore not decided by a registered check.",
+        "trusted": [],
+        "assumptions": ["only the comparison and conversion functions are decided"],
     },
     "C11": {
         "level": "other",
@@ -148,8 +151,8 @@ PROPS = {
         "explanation": "Lock protocol per function, sequentially: the table roots are only meaningful inside a critical section (lock stubs park "
                        "junk outside), so a read before the lock or after the unlock breaks the postcondition. Verified for "
                        "pfx_table_validate_r (one read section, released on every path; unbounded unit validate_v4), pfx_table_swap "
-                       "(both write locks), and the router-key table operations (spki_hist: every operation one section, no double "
-                       "acquisition, released). Data-race freedom and linearizability follow only with the rwlock semantics (paper "
+                       "(both write locks), pfx_table_add / pfx_table_remove (one write-locked section, callbacks after release). The "
+                       "router-key table is covered only by the lab-tier unit spki_hist. Data-race freedom and linearizability follow only with the rwlock semantics (paper "
                        "lemma); no interleaving is explored; pfx_table_for_each_* / pfx_table_free read the roots before locking "
                        "(seen by reading; the history unit that would show it runs in the thorough tier).",
         "trusted": ["pthread rwlock semantics"],
@@ -159,8 +162,9 @@ PROPS = {
         "level": "other",
         "explanation": "Failure containment as postconditions with an allocator that may fail at every call: element-array delete/append "
                        "(failed shrink restores, failed append changes nothing; any array length), rtr_store_prefix_pdu (buffer and index "
-                       "untouched), rtr_mgr_init (no success without a configuration, nothing invalid freed), router-key table "
-                       "operations in spki_hist (an operation fails only on allocation failure and then without effect). Allocator "
+                       "untouched), rtr_mgr_init (no success without a configuration, nothing invalid freed), pfx_table_add / "
+                       "pfx_table_remove (a failing callee yields PFX_ERROR without notification or root change), pfx_table_free (every "
+                       "block released exactly once, bounded). Allocator "
                        "consistency (every block returned to the allocator it came from) is not decided by contracts; the mismatch in "
                        "spki_table_free was found by reading and fixed.",
         "trusted": [],
@@ -631,11 +635,16 @@ UNITS = [
     U(id="pfx_remove", props=["C02", "C09", "C16", "C18"], file="units/pfx_ops.c", entry="h_pfx_remove", defines=["H_ENTRY=h_pfx_remove"], enforce=["pfx_table_remove"],
       replace=["trie_lookup_exact", "pfx_table_find_elem", "pfx_table_del_elem", "trie_remove"],
       kind="complete", need_classes=["postcondition", "precondition"], native=None, stubs=["pthread_rwlock_*", "lrtr_free"]),
-    U(id="src_remove", props=["C02", "C09", "C16"], file="units/src_remove.c", entry="h_src_remove", defines=["STUB_IP"], enforce=[], plain=True,
+    U(id="src_remove", props=["C02", "C09", "C16"], file="units/src_remove.c", entry="h_src_remove", defines=["STUB_IP"], enforce=[], plain=True, tier="lab",
       checked_by_assertions=["pfx_table_src_remove", "pfx_table_remove_id", "trie_remove", "pfx_table_del_elem"], need_classes=["assertion"],
       kind="bounded: every trie shape of 2 (quick) / 3 (thorough) levels, 1..2 records per node, two sources", tier_defines={"quick": {"SR_DEPTH": 2}, "thorough": {"SR_DEPTH": 3}},
-      bound=9, unwindset={"trie_remove": {"quick": 3, "thorough": 4}, "pfx_table_remove_id": {"quick": 3, "thorough": 4}}, native=None,
+      bound=9, unwindset={"trie_remove": {"quick": 3, "thorough": 4}, "pfx_table_remove_id": {"quick": 3, "thorough": 4},
+                          "pfx_table_del_elem.0": 3, "pfx_table_remove_id.0": {"quick": 5, "thorough": 9}, "pfx_table_remove_id.1": 4, "pfx_table_remove_id.2": 4}, native=None,
       timeout={"quick": 1800, "thorough": 7200}, allow_undefined=True, cbmc_flags=["--sat-solver", "cadical"], stubs=["lrtr_realloc", "lrtr_free", "lrtr_malloc", "pthread_rwlock_*", "lrtr_ip_addr_*"]),
+    U(id="pfx_free", props=["C09", "C18"], file="units/pfx_free.c", entry="h_pfx_free", defines=["STUB_IP"], enforce=[], plain=True,
+      checked_by_assertions=["pfx_table_free", "trie_remove"], need_classes=["assertion"],
+      kind="bounded: every trie shape of 2 levels (root + up to two children), 1..2 records per node", bound=6, unwindset={"trie_remove": 3},
+      native=None, timeout=1800, allow_undefined=True, cbmc_flags=["--sat-solver", "cadical"], stubs=["lrtr_free", "pthread_rwlock_*", "lrtr_ip_addr_*"]),
     # ------------------------------------------------------------------ C20
     U(id="c20_state_names", props=["C20"], file="units/c20_state_names.c", entry="h_c20_state",
       enforce=["rtr_state_to_str"], kind="complete", bound=70,
